@@ -661,6 +661,10 @@ def r_cfgi(chk, unit_on, unit_off):
         # lambdas of one (instantiated) function share a qualified name: qualify them by the enclosing function's
         # key and their source position
         k = f.qn + "|" + "|".join(p["type"] for p in f.decl["params"])
+        # overloads that differ only in cv / ref qualification of the implicit object (operator*() const& / &&) share
+        # name and parameter types: tell them apart by their pattern's position (the same file is parsed in both
+        # configurations)
+        k += "|#%s" % (f.pkey[1],)
         if f.decl.get("lambdaop"):
             k += "|@%s:%s" % (f.decl.get("line"), f.decl.get("col"))
             par = f.unit.func_of(f.decl["lambdaparent"]) if f.decl.get("lambdaparent") is not None else None
